@@ -16,7 +16,7 @@ import (
 )
 
 func checkC12(c *Ctx) {
-	c.explainf("C12 decides agreement of the printer's and the reader's tables: the escape sequences the string and char printers can emit (the documented output alphabet of strconv.Quote / QuoteRune, which they call) are all accepted by the reader's escape switch; the literal-decoding path never turns one byte of a string into a rune; the float printer never returns a bare shortest-'f' text, which for whole values is an integer literal; every token kind the atom classifier produces has an arm in the expression parser and the numeric arms parse with the base that matches the prefix the lexer strips; the end-of-text path flushes the last atom. No data printer pastes the raw text of a string value into its output (C12-RAW). It does not decide float text round trip, the regex cascade, or equality of read-back values.")
+	c.explainf("C12 decides agreement of the printer's and the reader's tables: the escape sequences the string and char printers can emit (the documented output alphabet of strconv.Quote / QuoteRune, which they call) are all accepted by the reader's escape switch; the literal-decoding path never turns one byte of a string into a rune; the float printer never returns a bare shortest-'f' text, which for whole values is an integer literal; every token kind the atom classifier produces has an arm in the expression parser and the numeric arms parse with the base that matches the prefix the lexer strips; the end-of-text path flushes the last atom. No data printer pastes the raw text of a string value into its output (C12-RAW). Reader-made symbol names match the lexer's own symbol pattern (C12-SYMNAME), the words printed for nil and booleans have a literal in the reader (C12-WORD), and a point after a minus sign is looked at separately when the number patterns accept -.5 (C12-SIGNFRAC): constant patterns of the package are compiled and matched in the checker. It does not decide float text round trip, the regex cascade as a whole, or equality of read-back values.")
 
 	c.checkReaderSymbolsReadable("C12-SYMNAME")
 	c.checkPrintedWordsAreLiterals("C12-WORD")
